@@ -657,6 +657,33 @@ func TestVerif_C13(t *testing.T) {
 	if t.Failed() {
 		return
 	}
+	if vfOnlySub("huge") && !vfReplayMode() && vfShard() < 2 {
+		type hc struct {
+			kind, want string
+			is     bool
+		}
+		for _, h := range []hc{{"csv", "text/csv", true}, {"csv-ragged-late", "text/csv", false}, {"ndjson-long-line", "application/x-ndjson", true}, {"ndjson-long-line-then-damage", "application/x-ndjson", false}} {
+			for _, n := range []int{70000, 200000}[vfShard() : vfShard()+1] {
+				x := vfBig(h.kind, n)
+				for _, L := range []uint32{0, uint32(len(x) + 1), 2 << 20} {
+					m := vfDetectAt(x, L)
+					var r vfResult
+					r.Nontrivial, r.Labels, r.Hash = true, []string{"huge"}, vfHash([]byte(h.kind), vfHashU(uint64(n), uint64(L)))
+					if got := vfBare(m.String()) == h.want; got != h.is {
+						r.Err = fmt.Errorf("%s of %d bytes examined in full (limit %d): reported as %s, %s expected = %v", h.kind, len(x), L, vfChainStr(m), h.want, h.is)
+					}
+					vfStats.record(r, func() any { return map[string]any{"sub": "huge", "kind": h.kind, "len": len(x), "limit": L} })
+					if r.Err != nil {
+						vfEnumFail(t, "C13", "txt", c13Txt{X: x[len(x)-min(len(x), 200):], Limit: 0}, r.Err)
+						return
+					}
+				}
+			}
+		}
+	}
+	if t.Failed() {
+		return
+	}
 	if vfOnlySub("neg") {
 		vfRun(t, vfSub[c13Neg]{Prop: "C13", Name: "neg", Checks: vfN(60000, 3000000), Gen: c13GenNeg, Check: c13NegCheck})
 	}
